@@ -616,7 +616,7 @@ func propC15(r *Run, w *World) {
 		r.UseFn(fnName(f))
 	}
 	// R1
-	r.Rule("C15.R1", "inputs are read-only: no map insert/delete, element store, copy or clear on a value whose origin is (*AuditMessage).Data() or .Tags(), anywhere in aucoalesce", 6)
+	r.Rule("C15.R1", "inputs are read-only: no map insert/delete, element store, in-place append, copy or clear on a value whose origin is (*AuditMessage).Data() or .Tags(), anywhere in aucoalesce", 6)
 	nSrc := 0
 	isSrc := func(v ssa.Value) bool {
 		ex, ok := v.(*ssa.Extract)
@@ -639,7 +639,7 @@ func propC15(r *Run, w *World) {
 		})
 	}
 	t := w.TaintFrom(scope, isSrc)
-	muts := t.Mutations(scope, false)
+	muts := t.Mutations(scope, true)
 	for _, m := range muts {
 		what := ""
 		switch in := m.Instr.(type) {
@@ -696,6 +696,70 @@ func propC15(r *Run, w *World) {
 			r.Fail(fmt.Sprintf("%s %s on normalisation tables", fnName(m.Fn), m.Kind), m.Instr.Pos(), m.Kind+" on "+Term(m.On)+", which is reachable from the global normalisation tables ("+tg.Why[m.On]+")")
 		}
 		r.OK("normalisation tables: mutation census", x.applyNorm.Pos(), fmt.Sprintf("%d functions reachable, %d mutations", len(reach), len(gm)))
+	}
+
+	// R6
+	r.Rule("C15.R6", "shared table slices have exact capacity: applyNormalization appends to event slices that alias the global normalisation tables (ECS category/type), which is safe only while cap == len; so every writer of Strings.Values stores a slice literal or decodes in place with yaml (exact capacity) - never an append result or a reslice", 2)
+	if fv, err := w.FieldVar("aucoalesce", "Strings", "Values"); err != nil {
+		r.Anchor(err)
+	} else {
+		for _, a := range w.FieldAccesses(fv) {
+			key := "Strings.Values " + a.Kind + " in " + fnName(a.Fn)
+			switch a.Kind {
+			case "load", "valarg", "alias", "returned":
+				if a.Kind == "valarg" && calleeName(a.Instr) == "append" {
+					// appending *to* Values (as the first argument) would also leave spare capacity behind
+					if c, ok := a.Instr.(*ssa.Call); ok {
+						if f, _ := loadedField(c.Call.Args[0]); f == fv {
+							r.Fail(key+" append-base", a.Instr.Pos(), "Strings.Values is extended with append: the result may have spare capacity, and events alias these slices")
+						}
+					}
+				}
+			case "store":
+				ok := false
+				switch v := a.Val.(type) {
+				case *ssa.Slice:
+					if al, isAl := v.X.(*ssa.Alloc); isAl && al.Comment == "slicelit" && v.Low == nil && v.High == nil {
+						ok = true
+					}
+				case *ssa.Const:
+					ok = v.Value == nil
+				}
+				r.Check(ok, key, a.Instr.Pos(), "slice literal (cap == len)", "Strings.Values is assigned "+Term(a.Val)+": unless its capacity equals its length, the appends in applyNormalization write into the shared normalisation table (one event then changes another, and concurrent coalescing races)")
+			case "escape":
+				// &s.Values handed to (*yaml.Node).Decode: the decoder allocates exactly len elements
+				n := calleeName(a.Instr)
+				pos := a.Instr.Pos()
+				if mi, ok := a.Instr.(*ssa.MakeInterface); ok && mi.Referrers() != nil {
+					for _, rf := range *mi.Referrers() {
+						if c, ok := rf.(ssa.CallInstruction); ok {
+							n = calleeName(c)
+							pos = c.Pos()
+						}
+					}
+				}
+				r.Check(n == "(*gopkg.in/yaml.v3.Node).Decode", key+" "+n, pos, "decoded in place by yaml.v3 (exact capacity)", "the address of Strings.Values is handed to "+n)
+			default:
+				r.Fail(key, a.Instr.Pos(), "Strings.Values is "+a.Kind+" here (not in the reviewed table)")
+			}
+		}
+		// the alias sites themselves (information): appends onto slices that originate in the tables
+		isG := func(v ssa.Value) bool {
+			u, ok := v.(*ssa.UnOp)
+			if !ok || u.Op != token.MUL {
+				return false
+			}
+			g, ok := u.X.(*ssa.Global)
+			return ok && (g.Name() == "syscallNorms" || g.Name() == "recordTypeNorms")
+		}
+		tg := w.TaintFrom(x.scope(), isG)
+		n := 0
+		for _, m := range tg.Mutations(x.scope(), true) {
+			if m.Kind == "append in place" {
+				n++
+			}
+		}
+		r.Info(fmt.Sprintf("%d append sites onto slices reachable from the global normalisation tables (safe while cap == len)", n))
 	}
 
 	// R3
